@@ -359,6 +359,9 @@ func fanOut(run *report.Run, check string, plans []c02Plan, mon func(*world.Conf
 			bases = versionHists(&baseCfg)
 		} else {
 			bases = closureStatesBounded(run, check, &baseCfg)
+			if _, capped := run.Extra["bases_capped:"+baseCfg.Name]; capped && len(bases) > 500 {
+				bases = bases[:500] // BFS order: the 500 shortest histories
+			}
 		}
 		var mu sync.Mutex
 		parallelFor(len(bases)*len(pl.captures), func(idx int) {
@@ -412,7 +415,10 @@ func closureStatesBounded(run *report.Run, check string, cfg *world.Config) [][]
 		}
 		filtered = append(filtered, op)
 	}
-	maxStates := int64(40000)
+	// the largest closure of these universes on a correct tree has 1 488 states (thorough tier); a base set that
+	// does not close by 8 000 belongs to code whose state space no longer closes, and fanning out from tens of
+	// thousands of bases would take hours: the BFS prefix is used and the evidence says so
+	maxStates := int64(8000)
 	e := &explore.Explorer{Cfg: &c2, Ops: filtered, Mon: explore.NopMonitor{}, Reduced: !c2.Exact, KeepHists: true, MaxStates: maxStates, MaxDepth: c2.MaxDepth}
 	if !world.HookAvailable {
 		e.MaxDepth = 2
@@ -423,6 +429,7 @@ func closureStatesBounded(run *report.Run, check string, cfg *world.Config) [][]
 		return nil
 	}
 	if !e.Exhaustive && !e.BoundDone {
+		run.Exhaustive = false
 		run.Extra["bases_capped:"+cfg.Name] = fmt.Sprintf("base set is the BFS prefix of %d states (depth %d), not the closure", e.States, e.Depth)
 	}
 	return e.Hists
